@@ -27,6 +27,17 @@ def main():
             subprocess.run(["git", "-C", "/repo", "worktree", "add", "-q", "--detach", str(base / "r"), "HEAD"], check=True)
             r = subprocess.run(["git", "-C", str(base / "r"), "apply", str(sd / "patch.diff")], capture_output=True, text=True)
             if r.returncode != 0:
+                # the repository has moved on since the change was written (repairs of genuine defects): merge it
+                r = subprocess.run(["git", "-C", str(base / "r"), "apply", "--3way", str(sd / "patch.diff")], capture_output=True, text=True)
+                if r.returncode == 0:
+                    print("%s: applied by 3-way merge" % sd.name)
+            if r.returncode != 0:
+                subprocess.run(["git", "-C", str(base / "r"), "checkout", "--", "."], capture_output=True)
+                r = subprocess.run(["patch", "-p1", "-F3", "--no-backup-if-mismatch", "-i", str(sd / "patch.diff")], cwd=str(base / "r"), capture_output=True, text=True)
+                if r.returncode == 0:
+                    print("%s: applied with fuzz" % sd.name)
+                r.stderr = r.stderr or r.stdout
+            if r.returncode != 0:
                 print("%s: patch does not apply: %s" % (sd.name, r.stderr.strip()[:200])); rc = 1; continue
             for prop in props:
                 r = subprocess.run([str(HERE / "check"), prop, "--tier", tier], env=dict(os.environ, PV_REPO=str(base / "r")), capture_output=True, text=True)
